@@ -28,6 +28,13 @@ Theorem C19_negative_no_hash : forall s, match s with [] => True | c :: _ => N.e
 Proof. exact header_prefix_none_nohash. Qed.
 Print Assumptions C19_negative_no_hash.
 
+(* the header prefix exactly: a trimmed line has it iff it is one to six '#' followed by a whitespace character (so seven
+   '#', or '#' followed directly by text, is no header) *)
+Theorem C19_header_prefix_exact : forall s n, header_prefix s = Some n <->
+  exists d sp rest, s = repeat HASH d ++ sp :: rest /\ (1 <= d <= 6)%nat /\ is_space sp = true /\ n = S d.
+Proof. exact header_prefix_exact. Qed.
+Print Assumptions C19_header_prefix_exact.
+
 (* a table row needs two to five leading blanks *)
 Theorem C19_table : forall text, md_table_indent text = true ->
   let n := count_while is_space text in 2 <= n <= 5 /\ exists r, skipn n text = PIPE :: r.
